@@ -8,7 +8,7 @@ def run(prop, tier, seed):
     wd = vlib.workdir(prop)
     cfg = "C19.cfg" if tier == "quick" else "C19_thorough.cfg"
     # exhaustive enumeration: nothing random, `seed` only recorded
-    cases, states, twall = ecommon.enumerate_sharded(prop, "C19.tla", cfg, 2 if tier == "quick" else 6)
+    cases, states, twall = ecommon.enumerate_sharded(prop, "C19.tla", cfg, 2 if tier == "quick" else 4)
     run_cases, obs, failed, hwall = ecommon.judge(rep, cases, wd, "lambda capture")
     fset = set(failed)
     for src in ("let", "var", "param", "loop", "match"):
